@@ -24,6 +24,7 @@ FULLEND = "{end_year}{end_month}{end_day}{end_hour}{end_minute}{end_second}"
 TEMPLATES = {
     ("full", 0): "{tag}/{year}/{month}/{day}/" + START + "-" + FULLEND,
     ("full", 1): "{year}/{doy}/{tag}_{year}{month}{day}" + START + "-" + FULLEND,
+    ("full", 2): "{tag}/{year}{doy}" + START + "-{end_year}{end_doy}{end_hour}{end_minute}{end_second}",
     ("noend", 0): "{year}/{month}/{day}/{tag}_" + START,
     ("noend", 1): "{tag}-{year}{doy}" + START,
     ("notag", 0): "{year}-{month}-{day}/" + START + "-" + FULLEND,
@@ -115,6 +116,8 @@ CONFIGS = [
     # (renaming a .zip without conversion keeps the bytes but not the member name typhon's decompress looks for:
     #  outside the property, see DESIGN.md) 
     ("full", "notag", 0, 1, "pkl.zip", "pkl.zip", True),
+    ("full", "full", 2, 0, "pkl", "pkl", False),           # day-of-year spelling of start and end across New Year
+    ("full", "full", 1, 2, "nc", "nc", False),
 ]
 
 
